@@ -33,7 +33,9 @@ Emit == Done => PrintT(<<"REPLAY", ToJson(CaseJ)>>)
 
 \* ---- name validity, exhaustive: one initial state per string, no transitions
 VARIABLE nm
-NameInit == nm \in SeqsUpTo({"a", "b", ":"}, 6) /\ Init
+\* ("~" stands for a letter that is not ASCII - two bytes in UTF-8 -: a name is a sequence of characters, where its
+\* colons sit is counted in characters)
+NameInit == nm \in (SeqsUpTo({"a", "b", ":"}, 6) \cup SeqsUpTo({"a", "~", ":"}, 6)) /\ Init
 NameNext == UNCHANGED <<nm, vars>>
 NameLaw == ValidName(nm) <=> DeclValid(nm)
 NameEmit == PrintT(<<"REPLAY", ToJson([name |-> Str(nm), valid |-> DeclValid(nm)])>>)
